@@ -194,10 +194,11 @@ func scripted(seed int64) []*hist {
 		}
 		out = append(out, h)
 	}
-	// -9, -10: a stored proposal record that no longer decodes — what the end blocker's
-	// failUnsupportedProposal branches are for — in the inactive queue (-9: handled once, but the
-	// queue entry stays and the NEXT block fails with ErrNotFound) and in the active queue (-10: nil
-	// pointer dereference on the zero record's VotingEndTime)
+	// -9, -10 (corpus/C15/undecodable-*.json): a stored proposal record that no longer decodes — what the
+	// end blocker's failUnsupportedProposal branches are for — in the inactive queue (-9) and in the
+	// active queue (-10).  Finding C15-3 (stale queue entry -> ErrNotFound next block; nil dereference)
+	// was repaired in e5a1e24: these are regression expectations now — refund, removal resp. FAILED,
+	// and every later block finalizes.
 	for _, both := range []bool{false, true} {
 		idx := -9
 		if both {
